@@ -23,6 +23,8 @@ def run(tier, acc):
     acc.violations += cc.records("C01", res, cs, {"bad"})
     res, cs = cc.drive(acc, "full", n, 3, "full", CLEAN)
     acc.violations += cc.records("C01", res, cs, {"bad"})
+    res, cs = cc.drive(acc, "cse", n // 2, 3, "cse", CLEAN)
+    acc.violations += cc.records("C01", res, cs, {"bad"})
     res, cs = cc.drive(acc, "ladder", 10 if tier == "quick" else 100, 2, "ladder", CLEAN)
     acc.violations += cc.records("C01", res, cs, {"bad"})
     cc.exhaustive(acc, "C01", tier, CLEAN)
